@@ -49,6 +49,7 @@ class Ctx:
         self.corr_failures = []
         self.oracle_failures = []
         self.known_hits = []
+        self.partials = []  # (group key, payload) pairs reduced by the module's finalize()
 
     def ask(self, req):
         return self.lean.ask(req)
@@ -69,8 +70,12 @@ class Ctx:
     def oracle_fail(self, case, what, site, signature=None, detail=None):
         self.oracle_failures.append({"case": case, "what": what, "site": site, "signature": signature, "detail": detail})
 
+    def partial(self, group, payload):
+        self.partials.append([group, payload])
+
     def export(self):
         return {
+            "partials": self.partials,
             "evaluations": self.evaluations,
             "distinct": sorted(self.distinct),
             "samples": self.samples,
@@ -88,6 +93,7 @@ class Ctx:
         self.stats.update(d["stats"])
         self.corr_failures += d["corr_failures"]
         self.oracle_failures += d["oracle_failures"]
+        self.partials += d.get("partials", [])
 
 
 # ------------------------------------------------------------------------------- Lean obligations
@@ -303,6 +309,12 @@ def main(argv=None):
     for d in results:
         ctx.merge(d)
         skipped += d["skipped"]
+
+    if hasattr(mod, "finalize"):
+        try:
+            mod.finalize(ctx)
+        except Exception:
+            ctx.corr_fail({}, "harness exception in finalize", traceback.format_exc()[-2000:])
 
     findings = load_findings(pid)
     new_fail, known = [], []
